@@ -55,7 +55,7 @@ CLAIMED = {
             "updates mixing them (begin, every callback once in order, one commit, exact consumption, Bell once afterwards), and from "
             "callbacks to the C12 reference canvas; the padded-packed-rows ZRLE finding is a refutation theorem with a 3x2 witness; "
             "termination/landing of every decoder (C15), chunk invariance (C01)",
-            "zlib is an oracle tape; Pillow modelled; two ZRLE defects are recorded known findings; strict hextile carry-over reading",
+            "zlib is an oracle tape; Pillow modelled; two ZRLE defects are recorded known findings; hextile colours carried across raw tiles as the RFC says, strict reading only for the foreground after coloured subrectangles",
             "Coq proofs (per-encoding round trips by induction over tiles/subrectangles/runs) + differential correspondence against an independent RFC 6143 encoder"),
     "C12": ("Coq model of the slice of Pillow the client uses (new/paste with clipping/frombytes raw modes/1-bit mask) and of "
             "updateRectangle/updateDesktopSize/updateCursor; theorems: for every accepted history of updates, size changes and (nocursor) "
